@@ -1122,7 +1122,7 @@ func TestVerifC35(t *testing.T) {
 		"allowed notifications are bounded by the dependencies ever seen, required ones by the last evaluation (gSuneido never forgets a dependency)")
 	defer rep.Finish()
 	compileAll()
-	n := vk.N(5000, 400000)
+	n := vk.N(20000, 400000)
 	th := &Thread{}
 	for i := 0; i < n; i++ {
 		if i%64 == 0 {
